@@ -372,6 +372,10 @@ fn variants(s: &mut Sink, r: &mut Rng, d: &Diag, base: &LOut, kind: &str) {
     match lm {
         Some((same, ms, mw, mpn, mcomps)) => {
             s.oracle(same, "mirror keeps the edges and swaps X/Xm", &txt, "");
+            if let Some(mtxt) = guard(|| { let m = l.mirror(); m.data().iter().map(|c| format!("{}:{},{},{},{}", c.ctype(), c.edge(0), c.edge(1), c.edge(2), c.edge(3))).collect::<Vec<_>>().join(";") }) {
+                s.case(&format!("MR {}", txt), &mtxt, true);
+                s.count("MR.mirror");
+            }
             s.oracle(edge_sets(&mcomps) == edge_sets(&base.comps), "mirror keeps the components", &txt, "");
             let mo = LOut { comps: mcomps, signs: ms, writhe: mw, pn: mpn, knot: base.knot, seifert: vec![] };
             let nm = norm_signs_of(&dm, &mo);
@@ -404,7 +408,8 @@ fn table_names() -> Vec<String> {
     v
 }
 fn load_table(name: &str) -> Option<Diag> {
-    let l = Link::load(name).ok()?;
+    // by path: `Link::load` by bare name rejects names such as `L10a10` (its name pattern has no digit 0)
+    let l = Link::load(&format!("/repo/yui-link/resources/links/{}.json", name)).ok()?;
     Some(l.data().iter().map(|c| (CT::X, *c.edges())).collect())
 }
 
@@ -523,9 +528,14 @@ fn case_b(s: &mut Sink, strands: usize, w: &[i32], in_quantifier: bool) {
     s.count(&format!("B.len.{:02}", w.len().min(30)));
     match l {
         None => {
-            if in_quantifier { s.oracle(false, "closure of a braid word that uses every strand returns", &req, "panic"); }
             s.count("B.panic");
-            s.case(&req, "panic", false);
+            if in_quantifier {
+                s.oracle(false, "closure of a braid word that uses every strand returns", &req, "panic");
+                s.case(&req, "panic", false);
+            } else {
+                // outside the property's quantifier (unused strand / letter out of range): only required to terminate
+                s.eval_only(&format!("{} (outside quantifier) => panic", req), false);
+            }
         }
         Some(l) => {
             let pd: Vec<[usize; 4]> = l.data().iter().map(|c| *c.edges()).collect();
@@ -549,7 +559,8 @@ fn case_b(s: &mut Sink, strands: usize, w: &[i32], in_quantifier: bool) {
                     None => s.oracle(false, "components / writhe of a braid closure return", &req, "panic"),
                 }
             }
-            s.case(&req, &relabel_str(&pd), !w.is_empty());
+            if in_quantifier || w.is_empty() { s.case(&req, &relabel_str(&pd), !w.is_empty()); }
+            else { s.count("B.outside-quantifier-returned"); s.eval_only(&format!("{} (outside quantifier) => returned", req), false); }
         }
     }
 }
@@ -623,12 +634,12 @@ fn main() {
     }
 
     // ----- table links -----
-    let n_tables = if thorough { 700 } else { 70 };
+    let n_tables = if thorough { names.len().max(1) } else { 250 };
     let r_limit = if thorough { 13 } else { 10 };
-    let mut r_budget_big: i64 = if thorough { 60 } else { 0 }; // number of 11..13-crossing diagrams fully enumerated
-    for _ in 0..n_tables {
+    let mut r_budget_big: i64 = if thorough { 100 } else { 0 }; // number of 11..13-crossing diagrams fully enumerated
+    for ti in 0..n_tables {
         if names.is_empty() { break }
-        let name = r.pick(&names).clone();
+        let name = if thorough { names[ti].clone() } else { r.pick(&names).clone() };
         let Some(d) = load_table(&name) else { s.count("table.load-failed"); continue };
         if !is_valid(&d) { s.count("table.invalid"); continue }
         if let Some(o) = case_l(&mut s, &d, "table") { variants(&mut s, &mut r, &d, &o, "table"); }
@@ -638,16 +649,17 @@ fn main() {
     }
 
     // ----- generated diagrams -----
-    let n_gen = if thorough { 4000 } else { 450 };
+    let mut r_budget_gen: i64 = if thorough { 120 } else { 0 };
+    let n_gen = if thorough { 15000 } else { 1500 };
     for _ in 0..n_gen {
-        let max_n = if r.chance(1, 6) { 24 } else { 10 };
+        let max_n = if r.chance(1, 6) { 24 } else if thorough && r.chance(1, 5) { 13 } else { 10 };
         let (d, kind) = gen_diag(&mut r, &names, max_n);
         if !is_valid(&d) { s.count("gen.invalid(bug in generator)"); s.oracle(false, "generator produced an invalid PD code (harness bug)", &diag_str(&d), &kind); continue }
         if !Orient::new(&d).consistent { s.count("gen.inconsistent(bug in generator)"); s.oracle(false, "generator produced an inconsistently oriented code (harness bug)", &diag_str(&d), &kind); continue }
         if let Some(o) = case_l(&mut s, &d, &kind) { if r.chance(1, 2) { variants(&mut s, &mut r, &d, &o, &kind); } }
         let n = d.len();
         if n <= 7 || (n <= 10 && r.chance(1, 4)) { case_r(&mut s, &d); }
-        else if n <= r_limit && r_budget_big > 0 && r.chance(1, 6) { r_budget_big -= 1; case_r(&mut s, &d); }
+        else if n <= r_limit && r_budget_gen > 0 && (n >= 12 || r.chance(1, 3)) { r_budget_gen -= 1; case_r(&mut s, &d); }
         if r.chance(1, 6) && n > 0 {
             // partially resolved
             let mut p = d.clone();
@@ -658,7 +670,7 @@ fn main() {
     }
 
     // ----- braid words -----
-    let n_braid = if thorough { 6000 } else { 600 };
+    let n_braid = if thorough { 25000 } else { 2500 };
     for _ in 0..n_braid {
         let strands = 2 + r.below(7) as usize;
         if r.chance(1, 12) {
